@@ -286,7 +286,9 @@ pub fn finish(run: &RunInfo, mut s: Summary) -> i32 {
         body.insert("case".into(), v.replay.clone());
         body.insert("trace".into(), json!(v.detail));
         let _ = std::fs::write(&path, serde_json::to_string_pretty(&Value::Object(body)).unwrap());
-        println!("--- violation {} ---\n{}", v.key, v.detail);
+        let shown: String = if v.detail.chars().count() > 1600 { v.detail.chars().take(1600).collect::<String>() + " ...(full trace in the replay file)" } else { v.detail.clone() };
+        let key_shown: String = if v.key.chars().count() > 200 { v.key.chars().take(200).collect::<String>() + "..." } else { v.key.clone() };
+        println!("--- violation {} ---\n{}", key_shown, shown);
         println!("VIOLATION property={} replay={}", run.property, path);
         exit = EXIT_VIOLATION;
     }
